@@ -378,7 +378,7 @@ theorem C13_wf_decidable (C : Codec K) [DecidableEq K] [DecidablePred R] [Decida
     the defaults of the reading network are), point ids non-empty and pairwise distinct.  `_partial`: the full statement
     `parseNet d = ok n → Net.WF n` is FALSE for the parser — the cluster part of `Net.WF` fails for a `<dh>` given both
     `dist` and `stdev` (the export writes `dist` only: finding F28, `C13_F28_witness`), a `<vec>` with `from_dh` / `to_dh`
-    (deliberately not exported), a `<coordinates>` point without status or with coordinates overwritten later; for all
+    (deliberately not exported), a `<coordinates>` point without status (since 6848bc2a a later `<point>` that gives the point other coordinates is no exception any more: `agrees` compares the groups, not the values); for all
     other documents of the `doc` stream the driver finds `Net.WF` true.  Covariance matrices: next theorem. -/
 theorem C13_parser_establishes_wf_partial (C : Codec K) (hell : C.ellKnown "wgs84" = true) (impl : Kind → K) (par0 : Params K)
     (d : Doc) (n : Net K) (h : parseNet C impl par0 d = .ok n) (h0 : par0.Guards C) :
